@@ -526,7 +526,16 @@ func main() {
 	overlay := flag.String("overlay", "", "virtual=real,... harness files")
 	rootPrefix := flag.String("rootprefix", "VH_", "functions with this name prefix in the loaded packages are roots")
 	out := flag.String("o", "ir.json", "output")
+	rewrite := flag.String("rewrite", "", "source file to rewrite (native override forwarders), with -spec")
+	spec := flag.String("spec", "", "Recv.name=stub@root1|root2;...")
 	flag.Parse()
+	if *rewrite != "" {
+		if err := rewriteFile(*rewrite, *spec, *out); err != nil {
+			fmt.Fprintln(os.Stderr, err)
+			os.Exit(2)
+		}
+		return
+	}
 	cfg := &packages.Config{Mode: packages.LoadAllSyntax, Dir: *dir, Env: os.Environ()}
 	if *overlay != "" {
 		cfg.Overlay = map[string][]byte{}
